@@ -286,6 +286,19 @@ Theorem check_run4 : forall v, check_spell4 v (L [seeded_spell4 v; seeded_spell4
 Proof. exact check_run4_l. Qed.
 Print Assumptions check_run4.
 
+(** exact4_implies_spec: the exact line of the fourth stream transfers the theorem to the implementation output
+    it accepts: for an input inside the domain both runs printed the same text, and it consists of the words of
+    the input, each kept, replaced by a listed misspelling (of the word or of one regex part), or corrupted by a
+    chain of [edit_word] calls — the val-level counterpart of [exact_implies_member] *)
+Theorem exact4_implies_spec : forall v r1 r2,
+  dom4 v = true -> exact_spell4 v (seeded_spell4 v) (L [r1; r2]) = true ->
+  exists t wc os, r1 = L [list_v n_v t] /\ r2 = r1 /\
+    mode_cfg (v_nat (v_nth 1 v)) (v_bool (v_nth 2 v)) (v_list v_item (v_nth 5 v)) = Some wc /\
+    Forall2 (word_result_t wc (mode_miss (v_nat (v_nth 1 v)) (v_miss (v_nth 6 v)))) (split_ws (v_str (v_nth 4 v))) os /\
+    t = join_sp (keep_some os).
+Proof. exact exact4_spec_l. Qed.
+Print Assumptions exact4_implies_spec.
+
 (** * Non-vacuity and known answers *)
 Open Scope N_scope.
 Definition s_ (l : list N) : str := l.
